@@ -217,3 +217,22 @@ package test
 //@   callsite parseJUnitXMLTestResults xml_goes_to_the_xml_reader [C26]: looksLikeJUnitXMLTestResults(data) && arg_data == data
 //@   callsite parseGoTestResults only_what_is_not_xml [C26]: !looksLikeJUnitXMLTestResults(data) && len(data) > 0 && arg_data == data
 //@   returnsite some_reader_ran [C26]: len(data) > 0 ==> called("parseJUnitXMLTestResults") || called("parseGoTestResults")
+//
+// doFlakeRun (C26, "within its flakiness allowance"): the test is run at most Flakiness times, never again after a
+// run in which every case succeeded or was skipped, and the cases of EVERY run are merged into the reported suite.
+//@ assume func doTest
+//@ func doFlakeRun
+//@   requires state != nil && target != nil && target.Test != nil && !succeeded
+//@   opt nopanic=off
+//@   opt panics=allowed
+//@   opt precall=off
+//@   opt inline=off
+//@   callsite (TestCases).AllSucceeded trackresult succeeded bool: result
+//@   callsite doTest track merged bool: false
+//@   callsite (TestSuite).Add track merged bool: true
+//@   invariant "loop#1" runs_so_far: flakes >= 1 && !succeeded && (called("doTest") ==> merged)
+//@   callsite doTest one_run_per_round [C26]: flakes >= 1 && arg_target == target && arg_run == 1
+//@   callsite doTest never_after_a_fully_successful_run [C26]: !succeeded
+//@   callsite doTest the_previous_run_was_merged [C26]: called("doTest") ==> merged
+//@   callsite (TestSuite).Add the_cases_of_this_run [C26]: arg_cases == testSuite.TestCases && called("doTest")
+//@   returnsite the_last_run_was_merged [C26]: called("doTest") ==> merged
